@@ -5911,6 +5911,11 @@ impl QueryRouter {
     ///
     /// Returns an error if the expression cannot be converted to a filter value.
     pub fn expr_to_filter_value(&self, expr: &Expr) -> Result<FilterValue> {
+        match Self::negated_numeric_literal(expr) {
+            Some(Literal::Integer(i)) => return Ok(FilterValue::Int(i)),
+            Some(Literal::Float(f)) => return Ok(FilterValue::Float(f)),
+            _ => {},
+        }
         match &expr.kind {
             ExprKind::Literal(lit) => match lit {
                 Literal::Null => Ok(FilterValue::String("null".to_string())),
@@ -5927,8 +5932,27 @@ impl QueryRouter {
         }
     }
 
+    /// A numeric literal with a leading minus parses as `Unary(Neg, literal)`; fold it
+    /// back into a (negative) literal so that value positions accept `-1` and `-0.5`.
+    fn negated_numeric_literal(expr: &Expr) -> Option<Literal> {
+        if let ExprKind::Unary(parser::UnaryOp::Neg, inner) = &expr.kind {
+            match &inner.kind {
+                ExprKind::Literal(Literal::Integer(i)) => i.checked_neg().map(Literal::Integer),
+                ExprKind::Literal(Literal::Float(f)) => Some(Literal::Float(-*f)),
+                _ => None,
+            }
+        } else {
+            None
+        }
+    }
+
     #[allow(clippy::unused_self)] // Method signature for API consistency
     fn expr_to_value(&self, expr: &Expr) -> Result<Value> {
+        match Self::negated_numeric_literal(expr) {
+            Some(Literal::Integer(i)) => return Ok(Value::Int(i)),
+            Some(Literal::Float(f)) => return Ok(Value::Float(f)),
+            _ => {},
+        }
         match &expr.kind {
             ExprKind::Literal(lit) => match lit {
                 Literal::Null => Ok(Value::Null),
@@ -5976,6 +6000,11 @@ impl QueryRouter {
     #[allow(clippy::cast_possible_truncation)] // Truncation acceptable for f32 conversion
     #[allow(clippy::cast_precision_loss)] // Precision loss acceptable for numeric conversion
     fn expr_to_f32(&self, expr: &Expr) -> Result<f32> {
+        match Self::negated_numeric_literal(expr) {
+            Some(Literal::Integer(i)) => return Ok(i as f32),
+            Some(Literal::Float(f)) => return Ok(f as f32),
+            _ => {},
+        }
         match &expr.kind {
             ExprKind::Literal(Literal::Float(f)) => Ok(*f as f32),
             ExprKind::Literal(Literal::Integer(i)) => Ok(*i as f32),
@@ -5986,6 +6015,11 @@ impl QueryRouter {
     #[allow(clippy::unused_self)] // Method signature for API consistency
     #[allow(clippy::cast_precision_loss)] // Precision loss acceptable for numeric conversion
     fn expr_to_f64(&self, expr: &Expr) -> Result<f64> {
+        match Self::negated_numeric_literal(expr) {
+            Some(Literal::Integer(i)) => return Ok(i as f64),
+            Some(Literal::Float(f)) => return Ok(f),
+            _ => {},
+        }
         match &expr.kind {
             ExprKind::Literal(Literal::Float(f)) => Ok(*f),
             ExprKind::Literal(Literal::Integer(i)) => Ok(*i as f64),
@@ -6092,6 +6126,17 @@ impl QueryRouter {
     fn properties_to_map(&self, properties: &[Property]) -> Result<HashMap<String, PropertyValue>> {
         let mut map = HashMap::new();
         for prop in properties {
+            match Self::negated_numeric_literal(&prop.value) {
+                Some(Literal::Integer(i)) => {
+                    map.insert(prop.key.name.clone(), PropertyValue::Int(i));
+                    continue;
+                },
+                Some(Literal::Float(f)) => {
+                    map.insert(prop.key.name.clone(), PropertyValue::Float(f));
+                    continue;
+                },
+                _ => {},
+            }
             let value = match &prop.value.kind {
                 ExprKind::Literal(Literal::Null) => PropertyValue::Null,
                 ExprKind::Literal(Literal::Boolean(b)) => PropertyValue::Bool(*b),
